@@ -129,6 +129,7 @@ package lisp
 //@ func READ(sourceCode, cursor, ns) (r, e)
 //@   requires ns == nil || validEnvVal(ns)
 //@   panics never
+//@   ensures e == readStrE(sourceCode, cursor, nil) && r == readStrV(sourceCode, cursor, nil) @C16
 
 // placeholderRE is `^(;; \$[\-\d\w]+)+\s(.+)`: a match has three submatches and the
 // first group is at least four bytes long (";; $" and one name character) (regexp contract, assumed)
